@@ -1,7 +1,7 @@
 """C05 — Coq theorems over coq/Model/Pool.v (lists regenerated from the source) + simulation of the real executor code with monitors."""
 from checks import simcommon as S
 
-FAMILIES = ['shutdown', 'latekill']
+FAMILIES = ['shutdown', 'latekill', 'cancelshutdown']
 PER_FAMILY = (500, 10000)
 
 
